@@ -2,6 +2,7 @@ package eventbus
 
 import (
 	"context"
+	"sync"
 )
 
 // c12Store wraps the real MemoryStore (events + subscription offsets) and
@@ -261,3 +262,49 @@ func harnessC12NoFault() { c12History(vParam("H", 4), false) }
 
 //verif:entry property=C12 tier=both bounds="as above with ONE fault: failure of the f-th store operation (append/read/save/load) or a crash right after the c-th store operation" cover="with-fault" H_quick=4 H_thorough=5
 func harnessC12OneFault() { c12History(vParam("H", 3), true) }
+
+//verif:entry property=C12 tier=both bounds="a publisher goroutine (K events of the subscribed type) interleaved at every synchronisation point with a running SubscribeWithReplay over the memory stores, one event persisted beforehand; then a drain restart; every interleaving within the preemption bound" cover="interleaved" K_quick=2 K_thorough=2 preempt_quick=2 preempt_thorough=3 race=on
+func harnessC12ConcurrentPublisher() {
+	K := vParam("K", 2)
+	mem := NewMemoryStore()
+	bus := New(WithStore(mem))
+	Publish(bus, evA{N: 100})
+	var mu sync.Mutex
+	var dels []int
+	h := func(e evA) {
+		mu.Lock()
+		dels = append(dels, e.N)
+		mu.Unlock()
+	}
+	var wg sync.WaitGroup
+	wg.Add(2)
+	go func() {
+		defer wg.Done()
+		SubscribeWithReplay(context.Background(), bus, "sub", h)
+	}()
+	go func() {
+		defer wg.Done()
+		for i := 0; i < K; i++ {
+			Publish(bus, evA{N: i + 1})
+		}
+	}()
+	wg.Wait()
+	vJoinAll()
+	// drain: a restart with a healthy subscription must complete the picture
+	bus2 := New(WithStore(mem))
+	vAssert(SubscribeWithReplay(context.Background(), bus2, "sub", h) == nil, "drain-subscribe-ok")
+	for _, n := range []int{100, 1, 2} {
+		if n > K && n != 100 {
+			continue
+		}
+		c := 0
+		for _, d := range dels {
+			if d == n {
+				c++
+			}
+		}
+		vAssertK(c >= 1, "no-persisted-event-lost", "KF-C12-publish-during-subscribe", true)
+		vAssertK(c <= 1, "exactly-once-without-faults", "KF-C12-live-offset-is-bus-wide", true)
+	}
+	vCover("interleaved")
+}
